@@ -277,14 +277,14 @@ run_pdi(const Cfg& c, const shared_ptr<Scanner>& scanner, const shared_ptr<ProjD
 
   // ---- selection of bins
   const bool small = (long)p.get_num_sinograms() * V * p.get_num_tangential_poss() <= (thorough ? 400000 : 60000);
-  std::vector<int> segs = pick(p.get_min_segment_num(), p.get_max_segment_num(), small ? 1000000 : (thorough ? 9 : 5), rng);
-  std::vector<int> views = pick(0, V - 1, small ? 1000000 : (thorough ? 24 : 8), rng);
-  std::vector<int> tps = pick(mintp, maxtp, small ? 1000000 : (thorough ? 48 : 14), rng);
+  std::vector<int> segs = pick(p.get_min_segment_num(), p.get_max_segment_num(), small ? 1000000 : (thorough ? 11 : 7), rng);
+  std::vector<int> views = pick(0, V - 1, small ? 1000000 : (thorough ? 28 : 10), rng);
+  std::vector<int> tps = pick(mintp, maxtp, small ? 1000000 : (thorough ? 56 : 20), rng);
   std::vector<int> tofs = pick(mint, maxt, small ? 1000000 : (thorough ? 5 : 3), rng);
   std::vector<Bin> bins;
   for (int s : segs)
     {
-      std::vector<int> axs = pick(p.get_min_axial_pos_num(s), p.get_max_axial_pos_num(s), small ? 1000000 : (thorough ? 12 : 6), rng);
+      std::vector<int> axs = pick(p.get_min_axial_pos_num(s), p.get_max_axial_pos_num(s), small ? 1000000 : (thorough ? 14 : 8), rng);
       for (int a : axs)
         for (int v : views)
           for (int tp : tps)
@@ -292,7 +292,7 @@ run_pdi(const Cfg& c, const shared_ptr<Scanner>& scanner, const shared_ptr<ProjD
               bins.push_back(Bin(s, v, a, tp, t, 1.F));
     }
   // bins that also go to the model (operation lines)
-  const int nops = thorough ? 120 : 36;
+  const int nops = thorough ? 160 : 64;
   std::set<std::size_t> op_idx;
   if (bins.size() <= (std::size_t)nops)
     for (std::size_t i = 0; i < bins.size(); ++i)
@@ -598,15 +598,29 @@ run_pdi(const Cfg& c, const shared_ptr<Scanner>& scanner, const shared_ptr<ProjD
               ++expect;
           const bool complete = (int)rds.size() == expect;
           const double nominal = pc->get_average_ring_difference(sg);
-          const double rd_slack = complete ? (((hi - lo) % 2) ? 0.5 : 0.0) : (hi - lo) / 2.0;
           if (!same_s || !near(as, s, 1e-4 * Reff))
             ofail("det-s", "tangential offset of the detector chord differs from get_s at bin " + bstr(b));
           if (!near(am, m, 1e-4 * axial_len))
             ofail("det-m", "axial midpoint of the detector pairs differs from get_m at bin " + bstr(b));
-          if (!near(att, ard * spacing / chord, 1e-4 * (1 + std::fabs(att)) * (Reff * Reff) / (Reff * Reff - s * s))
-              || std::fabs(ard - nominal) > rd_slack + 1e-6
-              || !near(tt, nominal * spacing / chord, 1e-4 * (1 + std::fabs(tt)) * (Reff * Reff) / (Reff * Reff - s * s)))
-            ofail("det-tantheta", "obliqueness of the detector pairs differs from get_tantheta at bin " + bstr(b));
+          const double tt_tol = 1e-4 * (1 + std::fabs(att)) * (Reff * Reff) / (Reff * Reff - s * s);
+          // (a) the line through the detectors has the obliqueness of the averaged ring difference; (b) get_tantheta is the NOMINAL one
+          if (!near(att, ard * spacing / chord, tt_tol) || !near(tt, nominal * spacing / chord, tt_tol))
+            ofail("det-tantheta", "obliqueness of the detector pairs / get_tantheta is not ring_difference*spacing/chord at bin " + bstr(b));
+          else if (std::fabs(ard - nominal) > 1e-6)
+            {
+              // get_tantheta (nominal middle of the segment's ring differences) differs from the average over the contributing pairs
+              if (!complete && std::fabs(ard - nominal) <= (hi - lo) / 2.0 + 1e-6)
+                known("obliqueness:ring-pair-list-cut-at-axial-edge",
+                      "for an axially compressed oblique segment the ring pairs contributing to the first/last axial positions are only part of "
+                      "the segment's ring differences (the others fall outside the scanner), so their average obliqueness differs from "
+                      "get_tantheta, which always uses the middle (min+max)/2 of the segment");
+              else if (complete && ((hi - lo) % 2) != 0 && near(std::fabs(ard - nominal), 0.5, 1e-6))
+                known("obliqueness:even-number-of-ring-differences-per-segment",
+                      "a segment with an even number of ring differences (even span) alternates between the even and the odd ones from one axial "
+                      "position to the next; their average differs by half a ring difference from get_tantheta, which uses (min+max)/2");
+              else
+                ofail("det-tantheta-average", "average obliqueness of the contributing detector pairs differs from get_tantheta at bin " + bstr(b));
+            }
           if (tp % 2 == 0 ? !near(adphi, 0, 1e-4) : !(std::fabs(adphi) <= half_view + 1e-4))
             ofail("det-phi", "azimuthal angle of the detector chord differs from get_phi at bin " + bstr(b));
           // uncompressed bins: find_cartesian_coordinates_of_detection gives the same line
@@ -996,7 +1010,9 @@ run_arc(vh::Rng& rng, int ncases)
       shared_ptr<Scanner> sc = make_scanner(c);
       shared_ptr<ProjDataInfo> pdi = vh::make_pdi(sc, 1, 0, c.views, c.ntang, false, 0);
       ArcCorrection ac;
-      const int mode = rng.range(0, 2);
+      int mode = rng.range(0, 2);
+      if (k == 0)
+        mode = 0;
       int nout = 0;
       float bs = 0;
       Succeeded ok = Succeeded::no;
@@ -1004,6 +1020,8 @@ run_arc(vh::Rng& rng, int ncases)
         {
           nout = rng.range(1, 2 * c.N);
           bs = (float)(rng.range(2, 64) / 8.0);
+          if (k == 0)
+            nout = 5, bs = 2.F; // arc-corrected range ends inside the data
           ok = ac.set_up(pdi, nout, bs);
         }
       else if (mode == 1)
@@ -1121,6 +1139,26 @@ main(int argc, char** argv)
   orc = std::fopen((std::string(argv[4]) + ".oracle").c_str(), "w");
   std::vector<Cfg> cfgs;
 
+  // ---- fixed configurations (they also make every candidate-finding class show up for every seed)
+  {
+    Cfg c;
+    c.N = 16, c.R = 3, c.span = 1, c.max_delta = 2, c.views = 8, c.ntang = 15;
+    cfgs.push_back(c); // full tangential range
+    c.R = 5, c.span = 3, c.max_delta = 4, c.ntang = 9;
+    cfgs.push_back(c); // odd span
+    c.views = 4;
+    cfgs.push_back(c); // + view mashing
+    c.views = 8, c.R = 6, c.span = 2, c.max_delta = 5;
+    cfgs.push_back(c); // even span
+    c.R = 5, c.span = 4, c.max_delta = 1;
+    cfgs.push_back(c); // even span clipped below span/2
+    c.R = 3, c.span = 1, c.max_delta = 2, c.tof_bins = 5, c.tof_mash = 1, c.tilt = -0.3F;
+    cfgs.push_back(c); // TOF, tilt
+    c.arc = true;
+    cfgs.push_back(c); // arc-corrected TOF
+    c.tof_bins = -1, c.tof_mash = 0, c.R = 5, c.span = 3, c.max_delta = 4, c.views = 4, c.ntang = 31;
+    cfgs.push_back(c); // arc-corrected, span, mashing, tilt
+  }
   // ---- all predefined scanners, non-arc-corrected and arc-corrected
   for (int ty = Scanner::E931; ty != Scanner::Unknown_scanner; ++ty)
     {
@@ -1329,8 +1367,8 @@ main(int argc, char** argv)
   cur_cfg = "overlap_interpolate / ArcCorrection";
   try
     {
-      run_overlap(rng, thorough ? 3000 : 500);
-      run_arc(rng, thorough ? 200 : 40);
+      run_overlap(rng, thorough ? 4000 : 800);
+      run_arc(rng, thorough ? 300 : 60);
     }
   catch (std::exception& e)
     {
